@@ -15,6 +15,10 @@ def cell_value(c):
     if vt=='date': return ('date', c.get(O+'date-value'))
     if vt=='boolean': return ('bool', c.get(O+'boolean-value'))
     return (vt, None)
+STRIP=None    # set to '__test_' to read a report generated with the test locale `kl`, whose catalogue prefixes every string with it
+def _un(v):
+    if STRIP and v is not None and v[0] in ('str','formula') and isinstance(v[1],str): return (v[0], v[1].replace(STRIP,''))
+    return v
 def read_ods(path, maxrep=2000):
     z=zipfile.ZipFile(path); root=ET.fromstring(z.read('content.xml'))
     out=[]
@@ -26,12 +30,12 @@ def read_ods(path, maxrep=2000):
             for c in r:
                 if c.tag not in (T+'table-cell', T+'covered-table-cell'): continue
                 cr=int(c.get(T+'number-columns-repeated','1'))
-                v=cell_value(c)
+                v=_un(cell_value(c))
                 cells.extend([v]*(cr if v is not None else min(cr,1)))
             while cells and cells[-1] is None: cells.pop()
             for _ in range(min(rr, maxrep if cells else 1)): rows.append(cells)
         while rows and not rows[-1]: rows.pop()
-        out.append((t.get(T+'name'), rows))
+        out.append((t.get(T+'name').replace(STRIP,'') if STRIP else t.get(T+'name'), rows))
     return out
 if __name__=='__main__':
     import sys
